@@ -21,6 +21,7 @@ import TnVerif.Model.Cross
 import TnVerif.Model.Cat
 import TnVerif.Model.Pad
 import TnVerif.Model.TTMatMul
+import TnVerif.Model.Stats
 /-
   Line-protocol driver (DESIGN §2.6).  One request per line on stdin, one answer per line on
   stdout.  Tokens are separated by blanks; numbers are integers or `p/q`.
@@ -526,6 +527,59 @@ def run (cmd : String) : PM String := do
       let x ← pArr (nb * m.inDims.prod)
       let res := m.multiply nb (fun k => x.getD k 0)
       return "ok " ++ showQs ((List.range (nb * m.outDims.prod)).map res)
+  | "mean" => do
+      let bits ← pNatList; let t ← pTensor
+      let showStatErr : StatErr → String := fun e =>
+        match e with | .zeroDivision => "zeroDivision" | .assertLen => "assertLen" | .idx e => showErr e
+      match t.mean (bits.map (· != 0)) with
+      | .error e => return "err " ++ showStatErr e
+      | .ok (.inl r) => return "ok " ++ showTensor r
+      | .ok (.inr x) => return "ok S " ++ showQ x
+  | "meankeep" => do
+      let bits ← pNatList; let t ← pTensor
+      match t.meanKeep (bits.map (· != 0)) with
+      | .error .zeroDivision => return "err zeroDivision"
+      | .error _ => return "err other"
+      | .ok r => return "ok " ++ showTensor r
+  | "mean_marg" => do
+      let bits ← pNatList; let keep ← pNat
+      let n ← pNat
+      let mut ws : Array (Option (Nat × (Nat → Q))) := #[]
+      for _ in [0:n] do
+        let k ← next
+        if k == "-" then ws := ws.push none
+        else
+          match k.toNat? with
+          | none => throw s!"nat or - expected: {k}"
+          | some len =>
+            let a ← pArr len
+            ws := ws.push (some (len, fun i => a.getD i 0))
+      let t ← pTensor
+      if keep != 0 then return "ok " ++ showTensor (t.meanMargKeep (bits.map (· != 0)) ws.toList)
+      match t.meanMarg (bits.map (· != 0)) ws.toList with
+      | .error e => return "err " ++ showErr e
+      | .ok (.inl r) => return "ok " ++ showTensor r
+      | .ok (.inr x) => return "ok S " ++ showQ x
+  | "var" => do
+      let t ← pTensor
+      match t.var with
+      | .error .zeroDivision => return "err zeroDivision"
+      | .error .assertLen => return "err assertLen"
+      | .error (.idx e) => return "err " ++ showErr e
+      | .ok x => return "ok S " ++ showQ x
+  | "var_marg" => do
+      let n ← pNat
+      let mut ws : Array (Nat × (Nat → Q)) := #[]
+      for _ in [0:n] do
+        let len ← pNat
+        let a ← pArr len
+        ws := ws.push (len, fun i => a.getD i 0)
+      let t ← pTensor
+      match t.varMarg ws.toList with
+      | .error .zeroDivision => return "err zeroDivision"
+      | .error .assertLen => return "err assertLen"
+      | .error (.idx e) => return "err " ++ showErr e
+      | .ok x => return "ok S " ++ showQ x
   | _ => throw s!"unknown command {cmd}"
 
 def handle (line : String) : String :=
